@@ -438,8 +438,9 @@ def mutants(rng, a: Any, pool: list[Any]) -> list[Any]:
 
 
 def op_payload(op, vid: dict[int, int]) -> list[Any]:
-    on = getattr(op, "op_name", None)
-    name = on.data if on is not None and hasattr(on, "data") else op.name
+    from xdsl.dialects.builtin import UnregisteredOp
+
+    name = op.op_name.data if isinstance(op, UnregisteredOp) else op.name
     return N("op:" + name, [P(dict(op.attributes)), P(dict(op.properties)), P(tuple(op.result_types)),
                             N("operands", [N("v" + str(vid.setdefault(id(v), len(vid)))) for v in op.operands])])
 
